@@ -1,0 +1,161 @@
+//go:build verif
+
+// Contracts for /verif (contract-based deductive verification), package wsflate.
+// Compiled only with the build tag "verif"; nothing here is called by the library.
+
+package wsflate
+
+import (
+	"io"
+
+	"github.com/gobwas/ws"
+)
+
+func forall(lo, hi int, f func(k int) bool) bool {
+	for k := lo; k < hi; k++ {
+		if !f(k) {
+			return false
+		}
+	}
+	return true
+}
+
+func exists(lo, hi int, f func(k int) bool) bool {
+	for k := lo; k < hi; k++ {
+		if f(k) {
+			return true
+		}
+	}
+	return false
+}
+
+func ghostOld() {}
+
+func iteInt(c bool, a, b int) int {
+	if c {
+		return a
+	}
+	return b
+}
+
+func inPos(r io.Reader) int                  { return 0 }
+func inEnd(r io.Reader) int                  { return 0 }
+func inByte(r io.Reader, i int) byte         { return 0 }
+func inErr(r io.Reader) error                { return nil }
+func outLen(w io.Writer) int                 { return 0 }
+func outCalls(w io.Writer) int               { return 0 }
+func outByte(w io.Writer, i int) byte        { return 0 }
+func sameBase(a, b []byte) bool              { return false }
+func notPartOf(b []byte, x interface{}) bool { return true }
+
+var _ = ws.StateServerSide
+
+// ---------------------------------------------------------------------------
+// RSV1 handling (C13, RFC 7692 §6): spec written from the RFC.
+
+func specIsFirstData(op ws.OpCode) bool { return op < 8 && op != ws.OpContinuation }
+
+//@ func MessageState.SetBits
+//@   props C13
+//@   requires [op] h.OpCode < 16 && h.Rsv < 8
+//@   ensures [err]  (result1 != nil) == (h.Rsv&4 != 0)
+//@   ensures [errv] result1 != nil ==> result1 == ErrUnexpectedCompressionBit
+//@   ensures [set]  result1 == nil ==> result0.Rsv == h.Rsv|byte(iteInt(s.compressed && specIsFirstData(h.OpCode), 4, 0))
+//@   ensures [rest] result0.Fin == h.Fin && result0.OpCode == h.OpCode && result0.Masked == h.Masked && result0.Mask == h.Mask && result0.Length == h.Length
+//@   ensures [state] s.compressed == old(s.compressed)
+//@   assigns nothing
+
+//@ func MessageState.UnsetBits
+//@   props C13
+//@   requires [rsv] h.Rsv < 8 && h.OpCode < 16
+//@   ensures [first] specIsFirstData(h.OpCode) ==> result1 == nil && s.compressed == (h.Rsv&4 != 0) && result0.Rsv == h.Rsv&3
+//@   ensures [other] !specIsFirstData(h.OpCode) ==> s.compressed == old(s.compressed) && result0.Rsv == h.Rsv && (result1 != nil) == (h.Rsv&4 != 0)
+//@   ensures [errv] result1 != nil ==> result1 == ErrUnexpectedCompressionBit
+//@   ensures [rest] result0.Fin == h.Fin && result0.OpCode == h.OpCode && result0.Masked == h.Masked && result0.Mask == h.Mask && result0.Length == h.Length
+//@   assigns s.compressed
+
+//@ func MessageState.IsCompressed
+//@   props C13
+//@   ensures [v] result == s.compressed
+//@   assigns nothing
+
+//@ func MessageState.SetCompressed
+//@   props C13
+//@   ensures [v] s.compressed == v
+//@   assigns s.compressed
+
+//@ func SetBit
+//@   props C13
+//@   requires [op] h.OpCode < 16 && h.Rsv < 8
+//@   ensures [err] (err != nil) == (h.Rsv&4 != 0)
+//@   ensures [set] err == nil ==> result0.Rsv == h.Rsv|byte(iteInt(specIsFirstData(h.OpCode), 4, 0))
+//@   assigns nothing
+
+//@ func UnsetBit
+//@   props C13
+//@   requires [rsv] h.Rsv < 8 && h.OpCode < 16
+//@   ensures [first] specIsFirstData(h.OpCode) ==> err == nil && wasSet == (h.Rsv&4 != 0) && result0.Rsv == h.Rsv&3
+//@   ensures [other] !specIsFirstData(h.OpCode) ==> !wasSet && (err != nil) == (h.Rsv&4 != 0)
+//@   assigns nothing
+
+// ---------------------------------------------------------------------------
+// Negotiation (C14, RFC 7692 §7.1).
+
+// specBitsText: a window-bits value is a decimal integer 8..15 without leading zeroes.
+func specBitsText(p []byte) bool {
+	return (len(p) == 1 && (p[0] == '8' || p[0] == '9')) || (len(p) == 2 && p[0] == '1' && p[1] >= '0' && p[1] <= '5')
+}
+
+func specBitsValue(p []byte) WindowBits {
+	if len(p) == 1 {
+		return WindowBits(p[0] - '0')
+	}
+	return WindowBits(10 + (p[1] - '0'))
+}
+
+func validWindow(b WindowBits) bool { return b == 0 || (b >= 8 && b <= 15) }
+
+// specLegal: the response resp is a legal answer to the offer (the four clauses of the property).
+func specLegal(resp, offer Parameters) bool {
+	smwb := offer.ServerMaxWindowBits == 0 || (resp.ServerMaxWindowBits != 0 && resp.ServerMaxWindowBits <= offer.ServerMaxWindowBits)
+	cmwb := resp.ClientMaxWindowBits == 0 || (offer.ClientMaxWindowBits != 0 && (offer.ClientMaxWindowBits == 1 || resp.ClientMaxWindowBits <= offer.ClientMaxWindowBits))
+	snct := !offer.ServerNoContextTakeover || resp.ServerNoContextTakeover
+	rng := validWindow(resp.ServerMaxWindowBits) && validWindow(resp.ClientMaxWindowBits)
+	return smwb && cmwb && snct && rng
+}
+
+// The dependency function as it behaves (assumed; only lengths 1 and 2 carry a value clause).
+//@ func httphead.IntFromASCII
+//@   ensures [ok]  ok == (len(bts) >= 1 && forall(0, len(bts), func(k int) bool { return bts[k]&0xf0 == 0x30 }))
+//@   ensures [v1]  ok && len(bts) == 1 ==> ret == int(bts[0]&0xf)
+//@   ensures [v2]  ok && len(bts) == 2 ==> ret == int(bts[0]&0xf)*10+int(bts[1]&0xf)
+//@   assigns nothing
+
+//@ func isValidBits
+//@   props C14
+//@   ensures [v] result == (8 <= x && x <= 15)
+//@   assigns nothing
+
+//@ func bitsFromASCII
+//@   props C14 C15
+//@   ensures [ok]  result1 == specBitsText(p)
+//@   ensures [val] result1 ==> result0 == specBitsValue(p)
+//@   ensures [zero] !result1 ==> result0 == 0
+//@   assigns nothing
+//@   loop 1 invariant [digits] 0 <= i && i <= len(p) && len(p) >= 1 && len(p) <= 2 && p[0] != '0' && forall(0, i, func(k int) bool { return p[k] >= '0' && p[k] <= '9' })
+//@   loop 1 decreases len(p) - i
+
+//@ func paramError
+//@   trusted
+//@   ensures [err] result != nil
+//@   assigns nothing
+
+//@ func Extension.Reset
+//@   props C14 C18
+//@   ensures [asnew] !n.accepted && n.params == Parameters{} && n.Parameters == old(n.Parameters)
+//@   assigns n.accepted, n.params
+
+//@ func Extension.Accepted
+//@   props C14
+//@   ensures [v] result0 == n.params && accepted == n.accepted
+//@   assigns nothing
